@@ -28,7 +28,7 @@ def maxDateLen : Nat := 127
 /-- times.cc 164-169: is the year of a format without a year moved back with boost's
     `years(1)` subtraction (which snaps a last day of month to the last day of the target
     month), as opposed to constructing `date(year - 1, month, day)`? -/
-def yearInferenceSnaps : Bool := true
+def yearInferenceSnaps : Bool := false
 
 /-- textual.cc `apply_year_directive`: (month, day) the clock is set to in the given year. -/
 def yearDirectiveMonthDay : Nat × Nat := (12, 31)
@@ -37,7 +37,7 @@ def yearDirectiveMonthDay : Nat × Nat := (12, 31)
     year-inference statement is masked). -/
 def dateFns : List (String × String) := [
   ("times.cc:date_io_t::parse", "std::tm data; std::memset(&data, 0, sizeof(std::tm)); data.tm_year = CURRENT_DATE().year() - 1900; data.tm_mday = 1; if (strptime(str, fmt_str.c_str(), &data)) return gregorian::date_from_tm(data); else return date_t();"),
-  ("times.cc:temporal_io_t::format", "std::tm data(to_tm(when)); char buf[128]; std::strftime(buf, 127, fmt_str.c_str(), &data); return buf;"),
+  ("times.cc:temporal_io_t::format", "std::tm data(to_tm(when)); char buf[128]; std::size_t len = std::strftime(buf, 127, fmt_str.c_str(), &data); return std::string(buf, len);"),
   ("times.cc:temporal_io_t::traits", "fmt_str(_fmt_str), traits(icontains(fmt_str, \"%F\") || icontains(fmt_str, \"%y\"), icontains(fmt_str, \"%F\") || icontains(fmt_str, \"%m\") || icontains(fmt_str, \"%b\"), icontains(fmt_str, \"%F\") || icontains(fmt_str, \"%d\")), input(_input)"),
   ("times.cc:parse_date_mask_routine", "if (std::strlen(date_str) > 127) { throw_(date_error, _f(\"Invalid date: %1%\") % date_str); } char buf[128]; std::strcpy(buf, date_str); if (convert_separators_to_slashes) { for (char * p = buf; *p; p++) if (*p == '.' || *p == '-') *p = '/'; } date_t when = io.parse(buf); if (! when.is_not_a_date()) { DEBUG(\"times.parse\", \"Passed date string: \" << date_str); DEBUG(\"times.parse\", \"Parsed date string: \" << buf); DEBUG(\"times.parse\", \"Parsed result is: \" << when); DEBUG(\"times.parse\", \"Formatted result is: \" << io.format(when)); string when_str = io.format(when); const char * p = when_str.c_str(); const char * q = buf; for (; *p && *q; p++, q++) { if (*p != *q && *p == '0') p++; if (! *p || *p != *q) break; } if (*p != '\\0' || *q != '\\0') throw_(date_error, _f(\"Invalid date: %1%\") % date_str); if (traits) *traits = io.traits; if (! io.traits.has_year) { when = date_t(CURRENT_DATE().year(), when.month(), when.day()); if (when.month() > CURRENT_DATE().month()) <YEAR-INFERENCE> } } return when;"),
   ("times.cc:parse_date_mask", "foreach (shared_ptr<date_io_t>& reader, readers) { date_t when = parse_date_mask_routine(date_str, *reader.get(), traits); if (! when.is_not_a_date()) return when; } throw_(date_error, _f(\"Invalid date: %1%\") % date_str); return date_t();"),
